@@ -14,7 +14,7 @@ BASE = dict(
     DEV_ImplicitDot='FALSE', DEV_NoRsetAfterDataReject='FALSE', DEV_ContinueAfterRsetFail='FALSE',
     DEV_LeakOnDialError='FALSE', DEV_QuitFailureLeavesConn='FALSE', DEV_NoDeadlineInDial='FALSE',
     DEV_NoopBeforeDeadline='FALSE', DEV_WindowStaysOpen='FALSE', DEV_FallbackInClear='FALSE',
-    DEV_DialKeepsConnection='FALSE', DEV_WindowNeedsDebug='FALSE', REDIAL='{FALSE}', LATEDEBUG='{FALSE}')
+    DEV_DialKeepsConnection='FALSE', DEV_WindowNeedsDebug='FALSE', REDIAL='{FALSE}', LATEDEBUG='{FALSE}', VARIANTS='{""}', MINR='1')
 
 
 def cfg(**kw):
@@ -34,19 +34,23 @@ STAGES = {
             ('send-2x2-b1-transport', 'Session', cfg(BUDGET='1', CAPSETS='{{}}', CLASSES='{"wfail", "cwfail", "drop"}')),
             ('send-2x1-b2-transport', 'Session', cfg(MAXR='1', BUDGET='2', CAPSETS='{{}}', CLASSES='{"wfail", "cwfail", "p5"}')),
             ('send-2x1-b1-allrender', 'Session', cfg(MAXR='1', BUDGET='1', CAPSETS='{{}}',
-                                                      RENDERKINDS='{"fail0", "failMid", "failEOF", "failAtt", "failAttEOF", "failSign"}')),
+                                                      RENDERKINDS='{"fail0", "failMid", "failEOF", "failAtt", "failAttEOF", "failSign", "failEmptyErr", "failShortErr"}')),
             ('dialandsend-2x1-b1', 'Session', cfg(OP='"DialAndSend"', MAXR='1', BUDGET='1', RENDERKINDS='{"failMid"}',
                                                   CAPSETS='{{}}')),
         ],
         'thorough': [
             ('send-3x2-b3-render', 'Session', cfg(N='3', BUDGET='3', RENDERKINDS='{"failMid"}', CAPSETS='{{}}')),
-            ('send-2x2-b2-allrender', 'Session', cfg(RENDERKINDS='{"fail0", "failMid", "failEOF", "failAtt", "failAttEOF", "failSign"}',
+            ('send-2x2-b2-allrender', 'Session', cfg(RENDERKINDS='{"fail0", "failMid", "failEOF", "failAtt", "failAttEOF", "failSign", "failEmptyErr", "failShortErr"}',
                                                       CAPSETS='{{}}', CLASSES='{"t4", "p5", "drop", "x3"}')),
             ('dialandsend-2x2-b2', 'Session', cfg(OP='"DialAndSend"', RENDERKINDS='{"failMid"}', CAPSETS='{{}}')),
         ],
     },
     'C04': {
         'quick': [
+            # messages without recipients in a batch (refused locally, nothing on the wire)
+            ('send-3x1-b1-no-recipients', 'Session', cfg(N='3', MAXR='1', MINR='0', BUDGET='1', CAPSETS='{{}}')),
+            # a reply that arrives after the client gave up waiting for it (the silent server answers three timeouts later)
+            ('send-2x1-b1-late-reply', 'Session', cfg(N='2', MAXR='1', BUDGET='1', CAPSETS='{{}}', CLASSES='{"stall"}', VARIANTS='{"latereply"}')),
             ('send-2x2-b2', 'Session', cfg(CAPSETS='{%s, {}}' % ALLCAPS)),
             ('send-caps-dsn-8bit', 'Session', cfg(N='2', MAXR='1', BUDGET='1', ENC8='BOOLEAN',
                                                   DSNS='{"off", "ret", "notify", "both"}', NONOOP='BOOLEAN',
@@ -69,6 +73,10 @@ STAGES = {
     },
     'C19': {
         'quick': [
+            # the caller cancels its context right after the transport connection was established
+            ('dial-context-cancelled', 'Session', cfg(OP='"Dial"', N='1', MAXR='1', BUDGET='1', CAPSETS='{{}}', CLASSES='{"p5", "drop"}', VARIANTS='{"ctxcancel"}',
+                                                      AUTHTYPES='{"NOAUTH", "LOGIN-NOENC"}', AUTHLISTS='{{"LOGIN"}}')),
+            ('dialandsend-context-cancelled', 'Session', cfg(OP='"DialAndSend"', N='1', MAXR='1', BUDGET='1', CAPSETS='{{}}', CLASSES='{"p5"}', VARIANTS='{"ctxcancel"}')),
             ('dial-tls-noauth-b1', 'Session', cfg(OP='"Dial"', N='1', MAXR='1', BUDGET='1', CAPSETS='{{}}', CODESETS='{54, 21}',
                                                   POLICIES='{"mandatory", "opportunistic", "none"}', STARTTLSADV='BOOLEAN',
                                                   HANDSHAKES='{"ok", "wrongname", "untrusted", "garbage"}')),
@@ -104,6 +112,10 @@ STAGES = {
     },
     'C17': {
         'quick': [
+            # the caller's context has a deadline far beyond the client timeout: the timeout still bounds the dial
+            ('dial-stall-long-context', 'Session', cfg(OP='"Dial"', N='1', MAXR='1', BUDGET='1', CAPSETS='{{}}', CLASSES='{"stall"}', VARIANTS='{"ctxdl"}',
+                                                       AUTHTYPES='{"NOAUTH", "LOGIN-NOENC"}', AUTHLISTS='{{"LOGIN"}}')),
+            ('dialandsend-stall-long-context', 'Session', cfg(OP='"DialAndSend"', N='1', MAXR='1', BUDGET='1', CAPSETS='{{}}', CLASSES='{"stall"}', VARIANTS='{"ctxdl"}')),
             ('dial-stall', 'Session', cfg(OP='"Dial"', N='1', MAXR='1', BUDGET='1', CAPSETS='{{}}', CLASSES='{"stall"}',
                                           POLICIES='{"mandatory", "opportunistic", "none"}', STARTTLSADV='{TRUE}', HANDSHAKES='{"ok", "stall"}',
                                           AUTHTYPES='{"NOAUTH", "PLAIN-NOENC", "LOGIN-NOENC", "CRAM-MD5", "SCRAM-SHA-256", "XOAUTH2"}',
@@ -183,6 +195,13 @@ STAGES = {
             ('dialandsend-mandatory', 'Session', cfg(OP='"DialAndSend"', N='1', MAXR='1', BUDGET='1', CAPSETS='{{}}',
                 POLICIES='{"mandatory"}', STARTTLSADV='BOOLEAN', HANDSHAKES='{"ok", "untrusted"}',
                 AUTHTYPES='{"NOAUTH", "PLAIN"}', AUTHLISTS='{{"PLAIN"}}')),
+            # the port is set before the policy (SetTLSPortPolicy on a Client whose port is not the default)
+            ('custom-port-then-port-policy', 'Session', cfg(OP='"DialAndSend"', N='1', MAXR='1', BUDGET='0', CAPSETS='{{}}', VARIANTS='{"customport"}',
+                POLICIES='{"mandatory", "opportunistic"}', STARTTLSADV='BOOLEAN', HANDSHAKES='{"ok"}')),
+            # WithSSL together with a caller-supplied dial function that returns a plain connection: auto-discovery must not take it for encrypted
+            ('ssl-flag-with-plain-dialer', 'Session', cfg(OP='"Dial"', N='1', MAXR='1', BUDGET='0', CAPSETS='{{}}', VARIANTS='{"sslflag"}',
+                POLICIES='{"none"}', HOSTKINDS='{"localhost", "other"}', AUTHTYPES='{"AUTODISCOVER", "PLAIN", "LOGIN", "CRAM-MD5"}',
+                AUTHLISTS='{{"PLAIN", "LOGIN"}, {"PLAIN", "LOGIN", "CRAM-MD5"}}')),
             # the TLS policy is changed between two dials of the same Client
             ('policy-change-redial', 'Session', cfg(OP='"Send"', N='1', MAXR='1', BUDGET='1', CAPSETS='{{}}', CLASSES='{"p5"}', REDIAL='{TRUE}',
                 POLICIES='{"mandatory", "opportunistic", "none"}', STARTTLSADV='BOOLEAN', HANDSHAKES='{"ok", "untrusted"}')),
@@ -216,6 +235,8 @@ STAGES = {
     },
     'C20': {
         'quick': [
+            ('send-2x2-b2-multiline', 'Session', cfg(SHAPES='{"multi"}', CLASSES='{"t4", "p5"}', CAPSETS='{{"ENHANCEDSTATUSCODES"}, {}}')),
+            ('send-3x1-b2', 'Session', cfg(N='3', MAXR='1', BUDGET='2', SHAPES='{"lead"}', CLASSES='{"t4", "p5"}', CAPSETS='{{"ENHANCEDSTATUSCODES"}}')),
             ('send-2x2-b2-shapes', 'Session', cfg(SHAPES='{"lead", "later", "none"}', CLASSES='{"t4", "p5"}',
                                                    CAPSETS='{{"ENHANCEDSTATUSCODES"}, {}}')),
             ('send-1x2-b2-boundary-codes', 'Session', cfg(N='1', CLASSES='{"t4", "p5"}', CODESETS='{0, 99, 21}',
